@@ -413,7 +413,7 @@ func (r *runner) line(line string) string {
 		return r.newWL(f)
 	case "locks":
 		return r.newLocks(f)
-	case "acq", "rel":
+	case "acq", "rel", "acqx", "acqd":
 		return r.locksOp(f)
 	case "bset", "bdel", "bprobe":
 		return r.bulkOp(f)
